@@ -86,11 +86,11 @@ func c05SockConn(srv *svc.Server, cid int, seed uint64, ntransfers int) (viol []
 		var expect []*ref.Reply // replies expected, in order, for the frames of this transfer
 		seen := map[int]bool{}
 		for idx, k := range order {
-			if r.Chance(1, 4) { // impossible package number: ignored
+			if !modular && r.Chance(1, 4) { // impossible package number: ignored
 				badNo := core.Pick(r, []uint16{0, uint16(N + 1), 65535})
 				frames = append(frames, t.SubFrame(id, base+30, uint16(N), badNo, []byte{9, 9, 9}))
 			}
-			if r.Chance(1, 4) { // ordinary message in between
+			if !modular && r.Chance(1, 4) { // ordinary message in between
 				hs := base + 20 + uint16(idx)
 				frames = append(frames, t.Frame(0x0002, hs, nil))
 				expect = append(expect, ref.ExpectedReply(0x0002, hs, nil, v2019, t.Phone))
